@@ -278,8 +278,9 @@ def build_traces(path, tier, seed):
         n = int(rng.integers(30, 300))
         dt = gen.dt(rng)
         t = np.arange(n)
-        P = float(rng.uniform(8, 60))
-        c = float(rng.uniform(0.02, 0.3))
+        P = float(rng.uniform(4, 30))
+        c = float(10.0 ** rng.uniform(-3.3, -0.5))      # mean step from far below to comparable with the oscillation: the running sum
+        #                                                 may jump over the whole band in one step and come back into it later
         a = np.sin(2 * np.pi * t / P + rng.uniform(0, 6.28)) * float(rng.uniform(0.5, 2.0)) + c + 0.05 * rng.standard_normal(n)
         if not (np.sum(a) > 0):
             a = a - np.mean(a) + c
